@@ -3,8 +3,10 @@
 -/
 import Cvss.Model.V2
 import Cvss.Spec.V2
+import Cvss.Lemmas.Num
+import Cvss.Lemmas.V2
 namespace Cvss.Props.C03
-open Cvss Cvss.Model
+open Cvss Cvss.Model Cvss.Lemmas.Num Cvss.Lemmas.V2
 
 def weightsPinned : Bool :=
   Gen.V2.values.all (fun (m, row) => row.all (fun (t, wgt) => wgt == some (Spec.V2.w m t))) &&
@@ -13,5 +15,193 @@ def weightsPinned : Bool :=
 
 /-- pinning: every weight the library reads is the guide's weight, and the tables have the same keys -/
 theorem weights_pinned : weightsPinned = true := by decide +kernel
+
+/-- a metric map as a successful `parse` produces it (see C04): every stored value is a legal value
+    of its metric and every mandatory metric is present -/
+def ValidMap (m : MMap) : Prop :=
+  (∀ k v, lookup k m = some v → ∃ vs, lookup k V2.tables.legal = some vs ∧ v ∈ vs) ∧
+  (∀ k ∈ V2.tables.mandatory, (lookup k m).isSome)
+
+/-- every weight read from the library's table is the guide's weight -/
+theorem weight_eq_spec {k t : Str} {row : List (Str × Option Rat)} {w : Option Rat}
+    (hrow : lookup k Gen.V2.values = some row) (hw : lookup t row = some w) :
+    w = some (Spec.V2.w k t) := by
+  have hp := weights_pinned
+  unfold weightsPinned at hp
+  simp only [Bool.and_eq_true] at hp
+  have := all_all_lookup (P := fun m t wgt => wgt == some (Spec.V2.w m t)) hp.1.1 hrow hw
+  exact eq_of_beq this
+
+/-- finite facts about the generated tables: every metric has a row of weights, and the row of every
+    optional metric has the key "ND" -/
+def rowsPresent : Bool :=
+  (keys Gen.V2.abbrs).all (fun k =>
+    match lookup k Gen.V2.values with
+    | none => false
+    | some row => decide (k ∈ Gen.V2.mandatory) || (lookup V2.ND row).isSome)
+
+theorem rows_present : rowsPresent = true := by decide +kernel
+
+/-- `get_value` returns the guide's weight of the stated (or Not Defined) value, for every metric -/
+theorem getValue_eq_spec (m : MMap) (hv : ValidMap m) (k : Str) (hk : k ∈ keys Gen.V2.abbrs) :
+    V2.getValue m k = some (Spec.V2.wa (assignment V2.ND m) k) := by
+  have hrp := List.all_eq_true.mp rows_present k hk
+  cases hrow : lookup k Gen.V2.values with
+  | none => rw [hrow] at hrp; exact absurd hrp (by simp)
+  | some row =>
+    rw [hrow] at hrp
+    simp only [Bool.or_eq_true, decide_eq_true_eq] at hrp
+    have ht : ∃ w, lookup ((lookup k m).getD V2.ND) row = some w := by
+      cases hkm : lookup k m with
+      | some v =>
+        obtain ⟨vs, hvs, hmem⟩ := hv.1 k v hkm
+        have hl : lookup k V2.tables.legal = (lookup k Gen.V2.values).map keys :=
+          lookup_map_keys k Gen.V2.values
+        rw [hl, hrow] at hvs
+        cases hvs
+        exact lookup_of_mem_keys hmem
+      | none =>
+        rcases hrp with hmand | hnd
+        · have := hv.2 k hmand
+          rw [hkm] at this
+          exact absurd this (by simp)
+        · exact Option.isSome_iff_exists.mp hnd
+    obtain ⟨w, hw⟩ := ht
+    have hwe := weight_eq_spec hrow hw
+    subst hwe
+    unfold V2.getValue
+    rw [hrow]
+    simp only [hw]
+    rfl
+
+theorem allND_temporal (m : MMap) :
+    V2.allND m Gen.V2.temporal = !Spec.V2.temporalDefined (assignment V2.ND m) := by
+  rw [Bool.eq_iff_iff]
+  simp only [V2.allND, Gen.V2.temporal, Spec.V2.temporalDefined, List.all_cons, List.all_nil,
+    Bool.and_true, Bool.not_not, Bool.and_eq_true, decide_eq_true_eq]
+  exact Iff.rfl
+
+theorem allND_environmental (m : MMap) :
+    V2.allND m Gen.V2.environmental = !Spec.V2.environmentalDefined (assignment V2.ND m) := by
+  rw [Bool.eq_iff_iff]
+  simp only [V2.allND, Gen.V2.environmental, Spec.V2.environmentalDefined, List.all_cons,
+    List.all_nil, Bool.and_true, Bool.not_not, Bool.and_eq_true, decide_eq_true_eq]
+  exact Iff.rfl
+
+/-- MAIN: for every valid metric map the three scores the model computes are the guide's equations
+    applied to the assignment read off the map; in particular `None` exactly where the guide's score is
+    undefined, and no exception outside the hierarchy can occur while scoring -/
+theorem v2_scores_eq_spec (m : MMap) (hv : ValidMap m) :
+    V2.computeScores m =
+      some (Spec.V2.baseScore (assignment V2.ND m), Spec.V2.temporalScore (assignment V2.ND m),
+            Spec.V2.environmentalScore (assignment V2.ND m)) := by
+  have gAV := getValue_eq_spec m hv c!"AV" (by decide)
+  have gAC := getValue_eq_spec m hv c!"AC" (by decide)
+  have gAu := getValue_eq_spec m hv c!"Au" (by decide)
+  have gC := getValue_eq_spec m hv c!"C" (by decide)
+  have gI := getValue_eq_spec m hv c!"I" (by decide)
+  have gA := getValue_eq_spec m hv c!"A" (by decide)
+  have gE := getValue_eq_spec m hv c!"E" (by decide)
+  have gRL := getValue_eq_spec m hv c!"RL" (by decide)
+  have gRC := getValue_eq_spec m hv c!"RC" (by decide)
+  have gCDP := getValue_eq_spec m hv c!"CDP" (by decide)
+  have gTD := getValue_eq_spec m hv c!"TD" (by decide)
+  have gCR := getValue_eq_spec m hv c!"CR" (by decide)
+  have gIR := getValue_eq_spec m hv c!"IR" (by decide)
+  have gAR := getValue_eq_spec m hv c!"AR" (by decide)
+  have hT := allND_temporal m
+  have hE := allND_environmental m
+  generalize ha : assignment V2.ND m = a at *
+  have hImp : V2.impactEq m = some (Spec.V2.impact a) := by
+    unfold V2.impactEq; rw [gC, gI, gA]; rfl
+  have hAdj : V2.adjustedImpactEq m = some (Spec.V2.adjustedImpact a) := by
+    unfold V2.adjustedImpactEq; rw [gC, gI, gA, gCR, gIR, gAR]
+    unfold Spec.V2.adjustedImpact
+    rw [← pyMin_eq_min]; rfl
+  have hB0 : V2.baseEq m false = some (Spec.V2.baseEq a (Spec.V2.impact a)) := by
+    unfold V2.baseEq; rw [gAV, gAC, gAu]
+    simp only [Bool.false_eq_true, if_false, hImp]; rfl
+  have hB1 : V2.baseEq m true = some (Spec.V2.baseEq a (Spec.V2.adjustedImpact a)) := by
+    unfold V2.baseEq; rw [gAV, gAC, gAu]
+    simp only [if_true, hAdj]; rfl
+  have hBS : V2.baseScore m = some (Spec.V2.baseScore a) := by
+    unfold V2.baseScore; rw [hB0]; unfold Spec.V2.baseScore; rw [← pyMax_eq_max]; rfl
+  have hT0 : V2.temporalEq m (Spec.V2.baseScore a) false =
+      some (Spec.V2.round1 (Spec.V2.baseScore a * Spec.V2.temporalFactor a)) := by
+    unfold V2.temporalEq; rw [gE, gRL, gRC]
+    simp only [Bool.false_eq_true, if_false]
+    show some (roundHalfUp1 _) = some (Spec.V2.round1 _)
+    unfold Spec.V2.temporalFactor
+    rw [← mul_assoc, ← mul_assoc]; rfl
+  have hT1 : V2.temporalEq m (Spec.V2.baseScore a) true =
+      some (Spec.V2.round1 (Spec.V2.baseEq a (Spec.V2.adjustedImpact a) * Spec.V2.temporalFactor a)) := by
+    unfold V2.temporalEq; rw [gE, gRL, gRC]
+    simp only [if_true, hB1]
+    show some (roundHalfUp1 _) = some (Spec.V2.round1 _)
+    unfold Spec.V2.temporalFactor
+    rw [← mul_assoc, ← mul_assoc]; rfl
+  unfold V2.computeScores
+  rw [hBS, hT, hE]
+  simp only [Option.bind_eq_bind, Option.bind_some, hT0, hT1, gCDP, gTD]
+  unfold Spec.V2.temporalScore Spec.V2.environmentalScore
+  cases Spec.V2.temporalDefined a <;> cases Spec.V2.environmentalDefined a <;>
+    simp [pyMax_eq_max] <;> rfl
+
+/-- the temporal (environmental) score is undefined exactly when every metric of the group is absent or ND -/
+theorem v2_none_iff (a : Str → Str) :
+    (Spec.V2.temporalScore a = none ↔ (a c!"E" = c!"ND" ∧ a c!"RL" = c!"ND" ∧ a c!"RC" = c!"ND")) ∧
+    (Spec.V2.environmentalScore a = none ↔
+      (a c!"CDP" = c!"ND" ∧ a c!"TD" = c!"ND" ∧ a c!"CR" = c!"ND" ∧ a c!"IR" = c!"ND" ∧ a c!"AR" = c!"ND")) := by
+  constructor
+  · unfold Spec.V2.temporalScore
+    cases h : Spec.V2.temporalDefined a
+    · simp only [Bool.false_eq_true, if_false, true_iff]
+      unfold Spec.V2.temporalDefined at h
+      simp only [Bool.not_eq_false', decide_eq_true_eq] at h
+      exact h
+    · simp only [if_true, reduceCtorEq, false_iff]
+      unfold Spec.V2.temporalDefined at h
+      simp only [Bool.not_eq_true', decide_eq_false_iff_not] at h
+      exact h
+  · unfold Spec.V2.environmentalScore
+    cases h : Spec.V2.environmentalDefined a
+    · simp only [Bool.false_eq_true, if_false, true_iff]
+      unfold Spec.V2.environmentalDefined at h
+      simp only [Bool.not_eq_false', decide_eq_true_eq] at h
+      exact h
+    · simp only [if_true, reduceCtorEq, false_iff]
+      unfold Spec.V2.environmentalDefined at h
+      simp only [Bool.not_eq_true', decide_eq_false_iff_not] at h
+      exact h
+
+/-- a well-formed score: an integer number of tenths between 0.0 and 10.0 -/
+def IsScore (x : Rat) : Prop := ∃ k : Nat, k ≤ 100 ∧ x = (k : Rat) / 10
+
+/-- an assignment whose values are legal for the guide's tables (as every parsed map gives) -/
+def LegalAssignment (a : Str → Str) : Prop :=
+  ∀ p ∈ Spec.V2.weights, (lookup (a p.1) p.2).isSome
+
+/-- C09 (v2 part): every defined v2 score is an integer number of tenths in [0.0, 10.0] -/
+theorem v2_spec_range (a : Str → Str) (ha : LegalAssignment a) :
+    IsScore (Spec.V2.baseScore a) ∧ (∀ x, Spec.V2.temporalScore a = some x → IsScore x) ∧
+      (∀ x, Spec.V2.environmentalScore a = some x → IsScore x) := by
+  have hl : Legal a := ha
+  refine ⟨baseScore_isScore hl, ?_, ?_⟩
+  · intro x hx
+    unfold Spec.V2.temporalScore at hx
+    split at hx
+    · cases hx; exact temporal_isScore hl
+    · cases hx
+  · intro x hx
+    unfold Spec.V2.environmentalScore at hx
+    split at hx
+    · cases hx; exact environmental_isScore hl
+    · cases hx
+
+/-- non-vacuity: a concrete valid map and its scores (AV:L/AC:L/Au:M/C:N/I:P/A:C/E:U/RL:W/CDP:L/TD:H/AR:M → 5.0, 4.0, 4.6) -/
+example :
+    Spec.V2.scores (assignment V2.ND [(c!"AV", c!"L"), (c!"AC", c!"L"), (c!"Au", c!"M"), (c!"C", c!"N"), (c!"I", c!"P"),
+      (c!"A", c!"C"), (c!"E", c!"U"), (c!"RL", c!"W"), (c!"CDP", c!"L"), (c!"TD", c!"H"), (c!"AR", c!"M")]) =
+      [some 5, some 4, some (mkRat 46 10)] := by decide +kernel
 
 end Cvss.Props.C03
